@@ -194,7 +194,7 @@ fn gen(ctx: &GenCtx, i: u64) -> Option<Run> {
     }
     let twin_every = 7;
     for (k, m) in outs.iter().enumerate() {
-        rb.push(Op::Deliver { msg: *m, to: v, now_ns: Ns(deliver_at), ticks: vec![], twin: vlayer != Layer::Core && k % twin_every == 0, control: None });
+        rb.push(Op::Deliver { msg: *m, to: v, now_ns: Ns(deliver_at), ticks: vec![], twin: vlayer != Layer::Core && k % twin_every == 0, control: None, key: None });
     }
     // heal: the unaltered token still goes through (judged under C01/C02, a probe here)
     rb.deliver(t.msg, v, deliver_at);
